@@ -121,6 +121,8 @@ class Purity(object):
                 return True
             if fn in ("ET.tounicode",):
                 return True
+            if depth < 4 and self._helper_returns_text(v, depth):
+                return True
         if isinstance(v, ast.BinOp) and isinstance(v.op, ast.Mod) and _const_str(self.prog, self.func, v.left) is not None:
             return True
         if isinstance(v, ast.BinOp) and isinstance(v.op, ast.Add):
@@ -130,6 +132,25 @@ class Purity(object):
         if isinstance(v, ast.JoinedStr):
             return True
         return False
+
+    def _helper_returns_text(self, call, depth):
+        """the call goes to a private helper (module function or method of the same class) all of whose return values are text"""
+        from ..symtext import _is_private_helper_call
+        try:
+            tgt = _is_private_helper_call(self.func, call)
+        except Exception:
+            tgt = None
+        if tgt is None or tgt is self.func or tgt.is_generator:
+            return False
+        hg = build_cfg(tgt)
+        rets = [n for n in hg.nodes if n.kind == "return"]
+        if not rets or any(n.ast.value is None for n in rets):
+            return False
+        # falling off the end returns None
+        if any(k0 != "return" and p.kind not in ("raise",) and k0 != "exc" for k0, p in hg.exit.pred):
+            return False
+        hp = Purity(self.prog, tgt, hg, None, None)
+        return all(hp.text_expr(n.ast.value, n, depth + 1) for n in rets)
 
     def pure(self, e, at_node, _inlined=False):
         """evaluating e after the open cannot raise."""
